@@ -24,7 +24,12 @@ META = dict(
          "as an insular clone (program run 3 ticks), whose inner / outer frame carries the same name as its main frame and/or the "
          "frame over the main frame (7 name patterns), with distinct via inodes on every frame, framer, clone and doer, and the 15 "
          "root-, inode-, frame- and actor-relative lines inside the clone; renaming ONE of two namesake frames (or any other "
-         "entity) must leave every path that does not go through it unchanged (oracle 1 with the fresh name mapped back).",
+         "entity) must leave every path that does not go through it unchanged (oracle 1 with the fresh name mapped back).  Insular "
+         "tag family: one main framer takes `aux X as mine` (build only) or `rear X as mine` (run 3 ticks) clones of TWO moots in "
+         "every order AB, BA, AAB, BAA (BAB thorough), with name pairs where one is a proper prefix of the other (wfd/wfder, "
+         "wfd/wfdd) or unrelated (wfd/wfg); each original is renamed to <other>er, to proper prefixes of the other, to <self>er and "
+         "to an unrelated fresh name; the clone name wfa_<original><count> must change in exactly the renamed original's component "
+         "and every path of the other clones must stay put.",
     note="Inode prefixes are name-free, so oracle 2 is exact about names but says nothing about the literal inode segments; "
          "their layout is only checked for renaming invariance (oracle 1).  `as mine` insular clones (generated tags) and the "
          "`do .. as name via/per` parsing defect of C15 are avoided by writing `at enter` after the doer name.",
@@ -405,6 +410,123 @@ def check_collision(real, addr, p, case):
         p.sample(dict(pattern=pname, line=line, place=place, via=where, resolved=mine[:3]))
 
 
+# ----------------------------------------------------------------------------- insular clone tag family
+#
+# `aux X as mine` and `rear X as mine` name the clone <main framer>_<X><count>: the tag is derived from the ORIGINAL's
+# name, counting only earlier insular clones of the same original in that main framer.  Two moots A and B are cloned
+# into one main framer; renaming one of them (to a name that creates or breaks a prefix relation with the other, or to
+# an unrelated name) must rename exactly its own tag component and leave the other clone's paths alone.
+
+IPAIRS = [("prefix", "wfd", "wfder"), ("prefix2", "wfd", "wfdd"), ("unrelated", "wfd", "wfg")]
+ISEQS = [("A,B", "AB"), ("B,A", "BA"), ("A,A,B", "AAB"), ("B,A,A", "BAA"), ("B,A,B", "BAB")]
+ILINES = [
+    ("of-framer",  "put 1 into x of framer"),
+    ("of-frame",   "put 1 into x of frame"),
+    ("of-actor",   "put 1 into x of actor"),
+    ("do-default", "do lit as dxa at enter per v pl.x"),
+    ("need-state", "go me if x of framer == 1"),
+    ("plain",      "put 1 into pl.x"),
+]
+IMODES = ("mine", "rear")
+
+
+def insular_program(a, b, seq, mode, line):
+    who = dict(A=a, B=b)
+    src = ["house h"]
+    if mode == "mine":
+        src += ["framer wfa be active first hra", "frame hra"]
+        src += ["  aux %s as mine" % who[c] for c in seq]
+    else:
+        src += ["framer wfa be active first hrh", "frame hrh"]
+        src += ["  rear %s as mine be aux in frame hrt" % who[c] for c in seq]
+        src += ["  go hrt", "frame hrt"]
+    src += ["framer wfb be active first hrc", "frame hrc",
+            "framer %s be moot first hrd" % a, "frame hrd", "  " + line,
+            "framer %s be moot first hre" % b, "frame hre", "  " + line, ""]
+    return "\n".join(src)
+
+
+def insular_new_names(x, other):
+    """fresh names for x that create / break a prefix relation with the other original, and an unrelated one"""
+    out = []
+    for n in (other + "er", other[:2], other[:-1], x + "er", FRESH):
+        if n not in out and n not in (x, other, "wfa", "wfb") and len(n) >= 2:
+            out.append(n)
+    return out
+
+
+def insular_cases(tier):
+    out = []
+    seqs = ISEQS if tier == "thorough" else ISEQS[:4]
+    for mode in IMODES:
+        for pname, a, b in IPAIRS:
+            for sname, seq in seqs:
+                for il in ILINES:
+                    if tier != "thorough" and mode == "rear" and il[0] in ("of-actor", "need-state"):
+                        continue
+                    out.append((mode, pname, a, b, sname, seq, il))
+    return out
+
+
+def check_insular(real, addr, p, case):
+    mode, pname, a, b, sname, seq, (lid, line) = case
+    ticks = RUN_TICKS if mode == "rear" else 0
+    text = insular_program(a, b, seq, mode, line)
+    tag = "insular-%s|%s|%s|%s" % (mode, pname, sname, lid)
+    orig = observe(real, addr, text, ticks)
+    p.evaluations += 1
+    rep = dict(script=text, line=line, originals=[a, b], clone_order=sname, mode=mode, run_ticks=ticks,
+               how="build with ioflo.base.building.Builder (rear: run 3 ticks); the insular clones are named "
+                   "wfa_<original><count>; read the Share/Node objects in the clones' act parms and house.store share names")
+    if orig[0] != "ok":
+        p.violation("%s|refused" % tag, "%s,%s" % (a, b), "insular clones of %s and %s could not be built: %s" % (a, b, orig[3]), rep)
+        return
+    clones = [n for n in orig[3] if n.startswith("wfa_")]
+    if len(clones) != len(seq):
+        p.violation("%s|clones-missing" % tag, "%s,%s" % (a, b), "expected %d insular clones, found %r" % (len(seq), clones), rep)
+        return
+    p.nontrivial(tag)
+    p.outcome("insular family: built (%s names)" % ("prefix-related" if pname != "unrelated" else "unrelated"))
+    for which, old, other in (("A", a, b), ("B", b, a)):
+        for new in insular_new_names(old, other):
+            na, nb = (new, b) if which == "A" else (a, new)
+            rtext = insular_program(na, nb, seq, mode, line)
+            ren = observe(real, addr, rtext, ticks)
+            p.evaluations += 1
+            where = "%s,%s rename %s -> %s" % (a, b, old, new)
+            rrep = dict(rep, renamed_script=rtext, rename=[old, new])
+            if ren[0] != "ok":
+                p.violation("%s|build-outcome-depends-on-name" % tag, where,
+                            "originals %s,%s build, after renaming %s -> %s the build is refused: %s" % (a, b, old, new, ren[3]), rrep)
+                continue
+            exp_refs = dict((k, rename_path(v[0], old, new)) for k, v in orig[1].items())
+            got_refs = dict((k, v[0]) for k, v in ren[1].items())
+            if exp_refs != got_refs:
+                diff = [(k, orig[1].get(k, ("-",))[0], exp_refs.get(k), got_refs.get(k))
+                        for k in sorted(set(exp_refs) | set(got_refs)) if exp_refs.get(k) != got_refs.get(k)]
+                k, o, e, g = diff[0]
+                through = o != e
+                p.violation("%s|renamed-map-differs" % tag, where,
+                            "clones %s of originals %s,%s; renaming original %s -> %s: reference %s resolved to %s before, expected "
+                            "%s after (%s), got %s (%d references differ)" % (
+                                sname, a, b, old, new, k, o, e,
+                                "its tag component renamed" if through else "it does not go through the renamed original", g, len(diff)),
+                            dict(rrep, differences=diff[:8]))
+                continue
+            exp_names = sorted(rename_path(n, old, new) for n in orig[2])
+            if exp_names != ren[2]:
+                x, y = set(exp_names), set(ren[2])
+                p.violation("%s|renamed-store-differs" % tag, where,
+                            "renaming original %s -> %s: store shares missing %s, unexpected %s" % (old, new, sorted(x - y)[:4],
+                                                                                                 sorted(y - x)[:4]),
+                            dict(rrep, missing=sorted(x - y), unexpected=sorted(y - x)))
+                continue
+            rel = "prefix-related" if (new.startswith(other) or other.startswith(new)) else "unrelated"
+            p.outcome("insular rename to a %s name" % rel)
+    if (len(p.keys) % 53) == 1:
+        p.sample(dict(originals=[a, b], clone_order=sname, mode=mode, line=line, clones=clones))
+
+
 BASE = {}
 
 
@@ -523,9 +645,12 @@ def work(arg):
     if kind == "main":
         for case in cases(tier)[start:stop]:
             check_case(real, addr, p, case)
-    else:
+    elif kind == "coll":
         for case in collision_cases(tier)[start:stop]:
             check_collision(real, addr, p, case)
+    else:
+        for case in insular_cases(tier)[start:stop]:
+            check_insular(real, addr, p, case)
     return p
 
 
@@ -579,9 +704,16 @@ def replay(path):
                 hit = case
                 break
         if hit is None:
+            for case in insular_cases("thorough"):
+                if insular_program(case[2], case[3], case[5], case[0], case[6][1]) == script:
+                    check_insular(real, addr, p, case)
+                    hit = "insular"
+                    break
+        if hit is None:
             print("replay: no program of the family has this script")
             return 2
-        check_collision(real, addr, p, hit)
+        if hit != "insular":
+            check_collision(real, addr, p, hit)
     else:
         check_case(real, addr, p, hit)
     print(script)
@@ -602,8 +734,11 @@ def run():
     cc = collision_cases(core.TIER)
     items = [("main", i, i + CHUNK, core.TIER) for i in range(0, len(cs), CHUNK)]
     items += [("coll", i, i + CHUNK, core.TIER) for i in range(0, len(cc), CHUNK)]
+    ci = insular_cases(core.TIER)
+    items += [("insular", i, i + CHUNK, core.TIER) for i in range(0, len(ci), CHUNK)]
     ck.merge(core.pmap(work, items))
-    ck.coverage_extra = dict(programs=len(cs), renamings_per_program=len(ENTITIES), collision_programs=len(cc),
+    ck.coverage_extra = dict(programs=len(cs), renamings_per_program=len(ENTITIES), collision_programs=len(cc), insular_programs=len(ci),
+                             insular_name_pairs=[x[:3] for x in IPAIRS], insular_clone_orders=[x[0] for x in ISEQS],
                              collision_patterns=[x[0] for x in PATTERNS], collision_lines=[x[0] for x in CLINES],
                              collision_renamings_per_program=len(PLACEHOLDERS) + len(CENTITIES), forms=[f[0] for f in FORMS],
                              slots=[s[0] for s in SLOTS], placements=PLACEMENTS, via_configurations=[c[0] for c in icfgs(core.TIER)])
